@@ -35,6 +35,17 @@ partial def histLoop (h : IO.FS.Stream) (out : IO.FS.Stream) (s : Ipam.Sys) : IO
     out.putStrLn o
     histLoop h out s'
 
+partial def fragLoop (h : IO.FS.Stream) (out : IO.FS.Stream) (st : Ipam.Sys × Bool) : IO Unit := do
+  let line ← h.getLine
+  if line.isEmpty then return ()
+  let l := line.trimAscii.toString
+  if l.isEmpty || l.startsWith "#" then
+    fragLoop h out st
+  else
+    let (st', o) := fragStep st l
+    out.putStrLn o
+    fragLoop h out st'
+
 def main (args : List String) : IO UInt32 := do
   let stdin ← IO.getStdin
   let stdout ← IO.getStdout
@@ -42,4 +53,5 @@ def main (args : List String) : IO UInt32 := do
   | ["pool"] => poolLoop stdin stdout none; return 0
   | ["hist"] => histLoop stdin stdout Ipam.Sys.init; return 0
   | ["valid"] => lineLoop stdin stdout validStep; return 0
+  | ["frag3"] => fragLoop stdin stdout (Ipam.Sys.init, true); return 0
   | _ => IO.eprintln "usage: driver pool|..."; return 2
